@@ -45,11 +45,10 @@ def check_read_block(ctx):
                            lambda c, p: truth_of(c, p, "options->verify_checksums") is False or rel_edge(c, p, "==", "crc", "actual"),
                            lambda e: e["e"] == "idx" and key(e["b"]) == "data" and key(e["i"]) == "n" and e["mode"] == "r",
                            "with verify_checksums the block type and contents are used only after the CRC matched")
-    for b, i, e in f.events("ret"):
-        a2 = g.must_at(b, i)
-        if holds(a2, ("!=", "crc", "actual")):
-            ctx.check(const_val(e.get("x")) == 30002, "T2-block-checksum", "mismatch-is-corruption", f.name, site(f, e),
-                      "a CRC mismatch returns LDB_CORRUPTION", "CRC mismatch returns %s" % key(e.get("x")))
+    from ..rules import returned_after
+    mv = returned_after(ctx, f, arm_edge=lambda lit: lit[0] not in ("case", "default") and rel_edge(lit[0], lit[1], "!=", "crc", "actual"))
+    ctx.check(mv == {30002}, "T2-block-checksum", "mismatch-is-corruption", f.name, f.loc,
+              "a CRC mismatch returns LDB_CORRUPTION on every path", "a CRC mismatch returns %s" % sorted(map(str, mv)))
     d = {e["n"]: key(e.get("init")) for b, i, e in f.events("decl")}
     ctx.check(d.get("crc") == "ldb_crc32c_unmask(ldb_fixed32_decode(((data + n) + 1)))", "T6-block-trailer", "reader:crc-position", f.name, f.loc,
               "stored CRC is the masked fixed32 at data + n + 1", "stored CRC read as %s" % d.get("crc"))
@@ -61,11 +60,10 @@ def check_read_block(ctx):
     ctx.require(sw is not None, "ldb_read_block: switch over the block type not found")
     ctx.check(set(cases) == {"LDB_NO_COMPRESSION", "LDB_SNAPPY_COMPRESSION"} and dflt, "T6-block-trailer", "reader:type-switch", f.name, f.loc,
               "none / snappy handled, anything else rejected", "block types handled: %s default=%s" % (sorted(cases), dflt))
-    for s in sw.succ:
-        if s is not None and (f.blocks[s].label or {}).get("default"):
-            rets = [e for e in f.blocks[s].ev if e["e"] == "ret"]
-            ctx.check(bool(rets) and const_val(rets[0].get("x")) == 30002, "T6-block-trailer", "reader:unknown-type", f.name, f.loc,
-                      "an unknown block type is LDB_CORRUPTION", "unknown block type is not rejected")
+    from ..rules import returned_after
+    vals = returned_after(ctx, f, arm_edge=lambda lit: lit[0] == "default" and key(lit[1]) == "data[n]")
+    ctx.check(vals == {30002}, "T6-block-trailer", "reader:unknown-type", f.name, f.loc,
+              "an unknown block type is LDB_CORRUPTION on every path", "an unknown block type returns %s" % sorted(map(str, vals)))
     # (d) snappy: size, allocation and decode in order, each checked
     ds = need_call(ctx, "T2-block-snappy", "decode_size", f, ("snappy_decode_size", "ldb_snappy_decode_size"), "the uncompressed size is validated")
     dc = need_call(ctx, "T2-block-snappy", "decode", f, ("snappy_decode", "ldb_snappy_decode"), "the block is decompressed")
